@@ -21,7 +21,12 @@ ASSUMPTIONS = [
 
 _names = st.sampled_from([None, "image", "my image", "bild_ü", "a.b"])
 _shape = st.tuples(st.integers(1, 24), st.integers(1, 24)).map(list)
-_spacing = st.tuples(gen.logu(1e-3, 1e3), st.one_of(st.none(), gen.logu(1e-3, 1e3))).map(lambda t: [t[0], t[1] if t[1] else t[0]])
+_spacing = st.one_of(
+    st.tuples(gen.logu(1e-3, 1e3), st.one_of(st.none(), gen.logu(1e-3, 1e3))).map(lambda t: [t[0], t[1] if t[1] else t[0]]),
+    st.tuples(gen.logu(1e-3, 1e3), st.one_of(st.none(), gen.logu(1e-3, 1e3))).map(lambda t: [t[0], t[1] if t[1] else t[0]]),
+    # nearly square pixels, and lengths in small units (metres: spacings of 1e-8..1e-6)
+    st.tuples(gen.logu(1e-9, 1e3), st.sampled_from([1e-9, 1e-6, 4e-6, 3e-5, 1e-3, 1e-2, -1e-6, -1e-2])).map(lambda t: [t[0], t[0] * (1 + t[1])]),
+    st.tuples(gen.logu(1e-9, 1e-6), gen.logu(1e-9, 1e-6)).map(list))
 
 
 def make_image(case):
@@ -67,7 +72,17 @@ def make_image(case):
     o = case.get("origin") or [0.0, 0.0]
     if o[0] or o[1]:
         im = im.assign_coords(x=im.x.values + o[0], y=im.y.values + o[1])
+    npm = case.get("np_meta")
+    if npm:
+        # scalar metadata as numpy scalars of another width (e.g. the float32 standard deviation of a float32 image)
+        for k in ("medium_index", "illum_wavelen", "noise_sd"):
+            if isinstance(kw.get(k), float):
+                kw[k] = getattr(np, npm)(kw[k])
     im = update_metadata(im, **kw)
+    if case.get("pol_dims") == "vector_first":
+        p_ = im.attrs.get("illum_polarization")
+        if isinstance(p_, xr.DataArray) and p_.ndim == 2:
+            im.attrs["illum_polarization"] = p_.transpose("vector", "illumination")
     return im
 
 
@@ -132,6 +147,8 @@ def strat_h5(tier):
         "dtype": st.sampled_from(["float64", "float64", "float32", "int"]), "name": _names,
         "channels": st.sampled_from([None, None, ["red", "green"], ["green", "red", "blue"], ["blue", "red"], ["red"], ["green"]]),
         "meta": _meta(), "cycles": st.integers(1, 3), "ext": st.sampled_from([".h5", "", ".h5"]),
+        "np_meta": st.sampled_from([None, None, None, "float32", "float16"]),
+        "pol_dims": st.sampled_from([None, None, "vector_first"]),
     })
 
 
@@ -141,6 +158,10 @@ def run_h5(case):
     im = make_image(case)
     fp = det_fingerprint(im)
     labels = ["channels_%d" % len(case["channels"] or []), case["dtype"], "cycles_%d" % case["cycles"]]
+    if case.get("np_meta") and any(isinstance(im.attrs.get(k), np.floating) and not isinstance(im.attrs.get(k), float) for k in ("medium_index", "illum_wavelen", "noise_sd")):
+        labels.append("numpy_scalar_metadata_" + case["np_meta"])
+    if tuple(getattr(im.attrs.get("illum_polarization"), "dims", ())) == ("vector", "illumination"):
+        labels.append("polarization_dims_vector_first")
     msg = expected_per_channel(case, im)
     if msg:
         return Outcome(failure("per_channel_metadata_by_label", msg), True, labels)
@@ -180,7 +201,8 @@ def run_h5(case):
 def strat_tif(tier):
     return st.fixed_dictionaries({
         "shape": st.tuples(st.integers(2, 20), st.integers(2, 20)).map(list), "spacing": _spacing, "seed": st.integers(0, 2 ** 31 - 1),
-        "lo": st.sampled_from([0.0, -2.0, 100.0]), "span": st.sampled_from([1.0, 0.01, 255.0]), "name": st.sampled_from([None, "holo", "my image"]),
+        "lo": st.sampled_from([0.0, -2.0, 100.0]), "span": st.sampled_from([1.0, 0.01, 255.0, 1.0, 0.01, 255.0, 0.0]), "name": st.sampled_from([None, "holo", "my image"]),
+        "np_meta": st.sampled_from([None, None, None, "float32"]),
         # colour images: all three channels or any two of them in any order (the exporter pads the missing colour)
         "channels": st.sampled_from([None, None, ["red", "green", "blue"], ["red", "green"], ["green", "red"], ["red", "blue"], ["blue", "red"],
                                      ["green", "blue"], ["blue", "green"], ["blue", "green", "red"]]),
@@ -199,8 +221,11 @@ def run_tif(case):
         case = dict(case, how="save_image8")
     if case["channels"] and case["how"] == "save_image16_unscaled":
         case = dict(case, how="save_image8_unscaled")
+    if case["span"] == 0.0:
+        # a constant image: there is no range to place an explicit interval around
+        case = dict(case, scaling=None)
     im = make_image(case)
-    labels = [case["how"], "rgb" if case["channels"] else "grey"]
+    labels = [case["how"], "rgb" if case["channels"] else "grey"] + (["constant_image"] if case["span"] == 0.0 else [])
     fp = det_fingerprint(im)
     with tempfile.TemporaryDirectory() as td:
         path = os.path.join(td, "pic.tif")
@@ -264,8 +289,10 @@ def run_tif(case):
     else:
         # one quantization step of the scaling interval (the data's own range unless an interval was given)
         tol = rng_ * widen / (2 ** bits - 1) * 0.51 + 1e-12 * abs(a).max()
+        if case["how"].endswith("_unscaled"):
+            tol = 0.51 / (2 ** bits - 1) + 1e-12      # the interval is (0, 1) whatever the data's own range
     err = float(np.abs(a - b).max())
-    if err > tol * TOLX:
+    if not (err <= tol * TOLX):
         return Outcome(failure("tiff_values", "values differ by %.4g after %s%s (range %.4g, allowed quantization %.4g)"
                                % (err, case["how"], " with an explicit scaling interval" if widen > 1.0 else "", rng_, tol), how=case["how"], explicit_scaling=widen > 1.0), True, labels)
     for cn in ("x", "y"):
@@ -375,12 +402,12 @@ def run_raster(case):
         stack = np.array(arrs)
         want = stack.mean(0)
         got = avg.transpose("z", "x", "y").values[0]
-        if np.abs(got - want).max() > 1e-12 * np.abs(want).max() * TOLX:
+        if not (np.abs(got - want).max() <= 1e-12 * np.abs(want).max() * TOLX):
             return Outcome(failure("load_average_mean", "average differs from the pixelwise mean by %.3g" % np.abs(got - want).max()), True, labels)
         if k > 1:
             want_noise = float((stack.std(0) / stack.mean(0)).mean())
             gn = float(np.asarray(avg.attrs["noise_sd"]))
-            if abs(gn - want_noise) > 1e-10 * max(want_noise, 1e-12) * TOLX + 1e-14:
+            if not (abs(gn - want_noise) <= 1e-10 * max(want_noise, 1e-12) * TOLX + 1e-14):
                 return Outcome(failure("load_average_noise", "noise_sd %r, mean of pixelwise std/mean %r" % (gn, want_noise)), True, labels)
         elif avg.attrs.get("noise_sd") is not None:
             return Outcome(failure("load_average_noise_single", "single image gives noise_sd %r" % avg.attrs.get("noise_sd")), True, labels)
